@@ -63,7 +63,7 @@ var vocab = []string{"vars", "max", "source", "destination", "send", "from", "up
 
 var hostile = []string{"0.00000000000000001%", "0.000000000000000001%", "12.5000000000000000%", "1.0000000000000000000%", "00000000000000000001%",
 	"1/10000000000000000000", "1/9223372036854775808", "9223372036854775807/9223372036854775807", "1 / 18446744073709551616", "1/00000000000000000001",
-	"99999999999999999999", "9223372036854775808", "-9223372036854775809", "08%", "010%", "18446744073709551616%", "1/0", "0/0", "1.%", "//", "/*", "*/",
+	"99999999999999999999", "9223372036854775808", "-9223372036854775809", "08", "-09", "0019", "08%", "010%", "18446744073709551616%", "1/0", "0/0", "1.%", "//", "/*", "*/",
 	"\"", "\"unterminated", "§", "é", "🙂", "\x00", "\xff", "\xc3", " ", "@", "$", "%", ".", ":", "_", "\\", "'", "1e5", "0x10", "1.5", "USD/2/", "@a:", "@a::b", "$1", "\r", "\t\t", "vars{", "}}", "((", "[[*"}
 
 func baseText(t *rapid.T, tier string) (string, []string) {
